@@ -92,6 +92,17 @@ func (e *Eng) execStmt(st *State, s ast.Stmt) *State {
 				vals[i] = e.coerce(vals[i], e.results[i].Type())
 			}
 		}
+		if e.loopNest > 0 && e.con != nil && len(e.con.InLoop) > 0 && e.inlDepth == 0 {
+			// `inloop ensures E`: a return from inside a loop body (leaving the remaining iterations undone) must satisfy E
+			env := e.specEnvFromState(st)
+			for i, v := range vals {
+				env[fmt.Sprintf("res%d", i)] = v
+			}
+			for qi, q := range e.con.InLoop {
+				g := e.evalSpec(st, q, env, e.oldEnv)
+				e.oblige(st, "inloop", fmt.Sprintf("#%d return inside a loop: %s", qi+1, e.con.InLoopSrc[qi]), g.T, s.Pos())
+			}
+		}
 		e.exits = append(e.exits, Exit{Kind: ExitReturn, St: st, Vals: vals, Pos: s.Pos()})
 		return nil
 	case *ast.BlockStmt:
@@ -363,6 +374,10 @@ func (e *Eng) execAssign(st *State, s *ast.AssignStmt) *State {
 					e.oblige(st, "at", key+" requires "+cl.Src, g.T, s.Pos())
 				case "ghost":
 					st.vars[e.ghosts[cl.Name]] = e.evalSpec(st, cl.Expr, env, e.oldEnv)
+				case "assume":
+					g := e.evalSpec(st, cl.Expr, env, e.oldEnv)
+					e.assume(st, g.T)
+					e.gap("ASSUME at `%s`: %s", key, cl.Src)
 				}
 			}
 		}
@@ -813,6 +828,58 @@ func (e *Eng) loopInvs() []*SExpr {
 	return e.con.Invs[e.loopOrd]
 }
 
+// loopInvsIn adds the `loop *:` invariants - written once for every loop of a function whose loops are generated from
+// the schema, so that their number varies - to the numbered ones: those whose program variables are all in scope at
+// this loop (a `loop *` invariant over variables declared later, or in another branch, does not concern this loop).
+func (e *Eng) loopInvsIn(st *State) []*SExpr {
+	invs := e.loopInvs()
+	if e.con == nil || len(e.con.Invs[0]) == 0 {
+		return invs
+	}
+	env := e.specEnvFromState(st)
+	out := append([]*SExpr{}, invs...)
+	for _, x := range e.con.Invs[0] {
+		ok := true
+		var walk func(x *SExpr, bound map[string]bool)
+		walk = func(x *SExpr, bound map[string]bool) {
+			if x == nil || !ok {
+				return
+			}
+			if x.Kind == SIdent {
+				n := x.Name
+				if _, has := env[n]; !has && !bound[n] && n != "true" && n != "false" && n != "nil" && !strings.HasPrefix(n, "idx") && !strings.HasPrefix(n, "range") {
+					if _, g := e.ghosts[n]; !g {
+						ok = false
+					}
+				}
+				return
+			}
+			args := x.Args
+			if x.Kind == SCall && len(args) > 0 {
+				args = args[1:] // the function position is a spec function / builtin name
+			}
+			nb := bound
+			if len(x.QVars) > 0 {
+				nb = map[string]bool{}
+				for k := range bound {
+					nb[k] = true
+				}
+				for _, q := range x.QVars {
+					nb[q] = true
+				}
+			}
+			for _, a := range args {
+				walk(a, nb)
+			}
+		}
+		walk(x, map[string]bool{})
+		if ok {
+			out = append(out, x)
+		}
+	}
+	return out
+}
+
 func (e *Eng) specEnvFromState(st *State) map[string]*Val {
 	env := map[string]*Val{}
 	best := map[string]types.Object{}
@@ -878,7 +945,7 @@ func (e *Eng) execFor(st *State, s *ast.ForStmt) *State {
 	if s.Init != nil {
 		st = e.execStmt(st, s.Init)
 	}
-	invs := e.loopInvs()
+	invs := e.loopInvsIn(st)
 	ord := e.loopOrd
 	e.checkInvs(st, invs, ord, "entry", s.Pos())
 	mod, heap := e.assignedVars(e.info, s)
@@ -895,7 +962,9 @@ func (e *Eng) execFor(st *State, s *ast.ForStmt) *State {
 		cond = e.eval(head, s.Cond).T
 	}
 	nex := len(e.exits)
+	e.loopNest++
 	body := e.execBlock(e.branch(head, cond), s.Body.List)
+	e.loopNest--
 	conts := append(e.takeExits(nex, ExitContinue, ""), body)
 	back := e.merge(conts)
 	if back != nil {
@@ -916,7 +985,7 @@ func (e *Eng) execFor(st *State, s *ast.ForStmt) *State {
 func (e *Eng) execRange(st *State, s *ast.RangeStmt) *State {
 	x := e.eval(st, s.X)
 	xt := e.info.TypeOf(s.X).Underlying()
-	invs := e.loopInvs()
+	invs := e.loopInvsIn(st)
 	ord := e.loopOrd
 	// hidden index variable
 	idxObj := types.NewVar(token.NoPos, nil, fmt.Sprintf("idx%d", ord), types.Typ[types.Int])
@@ -993,7 +1062,9 @@ func (e *Eng) execRange(st *State, s *ast.RangeStmt) *State {
 		step = fmt.Sprintf("(runew %s %s)", x.T, iv.T)
 	}
 	nex := len(e.exits)
+	e.loopNest++
 	body := e.execBlock(b, s.Body.List)
+	e.loopNest--
 	conts := append(e.takeExits(nex, ExitContinue, ""), body)
 	for bi, back := range conts {
 		if back == nil {
